@@ -3,7 +3,7 @@
 // are programmable receivers: each accepts the next <budget> messages and rejects afterwards (budget set by the program at any time), and answers
 // register_predecessor() with a fixed true / false (true = the edge goes to the pull state and the receiver remembers its predecessor).
 // Operations: try_put to the node, set a budget, a receiver pulls from its predecessor (try_get; on failure it gives the edge back with
-// register_successor), limiter decrements of -3..+3, clear() of overwrite/write_once, try_get by the test, make_edge of a late successor, graph::reset(rf_reset_bodies) (R; function / async nodes).
+// register_successor), limiter decrements of -3..+3, clear() of overwrite/write_once, try_get and try_reserve / try_release / try_consume by the test, make_edge of a late successor, graph::reset(rf_reset_bodies) (R; function / async nodes).
 // After every operation graph::wait_for_all() is called, so the state is quiescent, and then compared with the model:
 //   the return value of the call, the exact sequence of values every receiver has got so far, and at the end the items still buffered.
 // What the model states (sequential reading of the documented contracts, C15 statement):
@@ -14,7 +14,7 @@
 //   overwrite keeps the latest, write_once the first value until clear(), both give it to try_get and to a successor attached later;
 //   limiter: a put is accepted iff count < threshold and some successor accepts it; count' = count + 1; decrement d: count' = min(threshold, max(0, count - d)).
 // usage: c15_fgmodel_rc <max_success> [<property id for the replay file name>]   (env VERIF_LEG_SEED, VERIF_REPLAY_DIR)   |   c15_fgmodel_rc replay <file>
-// case (one line):  fg nut=<bc|fn|as|ow|wo|q|pq|seq|lim> T=<threshold> copy=<0|1 node copy-constructed from a prototype> sinks=<regpred:budget:attached,...> ops=<P5,B0:2,U1,D-2,C,G,E2,...>
+// case (one line):  fg nut=<bc|fn|as|ow|wo|q|pq|seq|lim> T=<threshold> copy=<0|1 node copy-constructed from a prototype> sinks=<regpred:budget:attached,...> ops=<P5,B0:2,U1,D-2,C,G,V,L,M,E2,R,...>
 #include <rapidcheck.h>
 #include "oneapi/tbb/flow_graph.h"
 #include "oneapi/tbb/global_control.h"
@@ -52,12 +52,13 @@ struct Sink : receiver<int> {
 struct MSink { bool regpred = false; int budget = -1; bool attached = false, haspred = false; std::vector<int> log; };
 struct Model {
     std::string kind; int T = 1; std::vector<MSink> s; std::vector<int> push;
-    std::deque<int> items; std::multiset<int> bag; std::set<int> present; int head = 0; bool valid = false; int val = 0; int count = 0;
+    std::deque<int> items; std::multiset<int> bag; std::set<int> present; int head = 0; bool valid = false; int val = 0; int count = 0; bool reserved = false; int rsv = 0;
     bool accepts(int k, int v) { MSink& m = s[(size_t)k]; if (m.budget == 0) return false; if (m.budget > 0) m.budget--; m.log.push_back(v); return true; }
     bool offer_all(int v) { bool any = false; for (size_t i = 0; i < push.size();) { int k = push[i]; if (accepts(k, v)) { any = true; i++; } else if (s[(size_t)k].regpred) { push.erase(push.begin() + (long)i); s[(size_t)k].haspred = true; } else i++; } return any; }
     bool offer_one(int v) { for (size_t i = 0; i < push.size();) { int k = push[i]; if (accepts(k, v)) return true; if (s[(size_t)k].regpred) { push.erase(push.begin() + (long)i); s[(size_t)k].haspred = true; } else i++; } return false; }
     bool buffering() const { return kind == "q" || kind == "pq" || kind == "seq"; }
     void forward() {
+        if (reserved) return;      // nothing leaves a buffer while one of its items is reserved
         if (kind == "q") while (!items.empty() && offer_one(items.front())) items.pop_front();
         else if (kind == "pq") while (!bag.empty() && offer_one(*bag.rbegin())) bag.erase(std::prev(bag.end()));
         else if (kind == "seq") while (present.count(head) && offer_one(head)) { present.erase(head); head++; }
@@ -72,7 +73,18 @@ struct Model {
         if (kind == "lim") { if (count >= T) return false; bool any = offer_all(v); if (any) count++; return any; }
         return false;
     }
+    bool reserve(int& x) {   // try_reserve: the next item stays in the node but is promised to the caller
+        if (reserved) return false;
+        if (kind == "q") { if (items.empty()) return false; x = items.front(); }
+        else if (kind == "pq") { if (bag.empty()) return false; x = *bag.rbegin(); bag.erase(std::prev(bag.end())); }
+        else if (kind == "seq") { if (!present.count(head)) return false; x = head; }
+        else return false;
+        reserved = true; rsv = x; return true;
+    }
+    void release() { reserved = false; if (kind == "pq") bag.insert(rsv); forward(); }
+    void consume() { reserved = false; if (kind == "q") items.pop_front(); else if (kind == "seq") { present.erase(head); head++; } forward(); }
     bool get(int& x) {       // try_get on the node (by the test, or by a successor in the pull state)
+        if (reserved && buffering()) return false;
         if (kind == "q") { if (items.empty()) return false; x = items.front(); items.pop_front(); return true; }
         if (kind == "pq") { if (bag.empty()) return false; x = *bag.rbegin(); bag.erase(std::prev(bag.end())); return true; }
         if (kind == "seq") { if (!present.count(head)) return false; x = head; present.erase(head); head++; return true; }
@@ -118,7 +130,7 @@ static bool run_case(const std::string& line) {
     if (S.empty()) return true;
     for (size_t k = 0; k < S.size(); k++) if (m.s[k].attached) { make_edge(*out, *S[k]); m.attach((int)k); }
     g.wait_for_all();
-    int n_rej = 0, n_pull = 0, n_keep = 0;
+    int n_rej = 0, n_pull = 0, n_keep = 0, n_resv = 0;
     auto compare = [&](const std::string& after) -> bool {
         for (size_t k = 0; k < S.size(); k++) {
             if (S[k]->log != m.s[k].log) {
@@ -154,6 +166,15 @@ static bool run_case(const std::string& line) {
         } else if (c == 'G') {
             int x = -1, y = -1; bool r = out->try_get(x); g.wait_for_all(); bool e = m.get(y);
             if (r != e || (r && x != y)) return fail("try_get on the " + m.kind + " node returned " + (r ? "true, " + num(x) : "false") + ", the contract gives " + (e ? "true, " + num(y) : "false"));
+        } else if (c == 'V') {
+            if (!m.buffering()) continue;
+            int x = -1, y = -1; bool r = out->try_reserve(x); g.wait_for_all(); bool e = m.reserve(y);
+            if (r != e || (r && x != y)) return fail("try_reserve on the " + m.kind + " node returned " + (r ? "true, " + num(x) : "false") + ", the contract gives " + (e ? "true, " + num(y) : "false"));
+            if (r) n_resv++;
+        } else if (c == 'L' || c == 'M') {
+            if (!m.buffering() || !m.reserved) continue;      // release / consume only by the holder of a reservation
+            if (c == 'L') { out->try_release(); m.release(); } else { out->try_consume(); m.consume(); }
+            g.wait_for_all();
         } else if (c == 'R') {
             // graph::reset(rf_reset_bodies) at a quiescent point: bodies go back to their initial copies; for these (stateless) bodies nothing visible changes
             if (!(fn || as)) continue;
@@ -166,14 +187,15 @@ static bool run_case(const std::string& line) {
         } else continue;
         if (!compare(op)) return false;
     }
-    // what is still buffered
+    // what is still buffered (an outstanding reservation is given back first)
+    if (m.buffering() && m.reserved) { out->try_release(); m.release(); g.wait_for_all(); if (!compare("the final try_release")) return false; }
     if (m.buffering()) for (int guard = 0; guard < 1000; guard++) {
         int x = -1, y = -1; bool r = out->try_get(x), e = m.get(y);
         if (r != e || (r && x != y)) return fail("final drain of the " + m.kind + " node: try_get returned " + (r ? "true, " + num(x) : "false") + ", the contract gives " + (e ? "true, " + num(y) : "false"));
         if (!r) break; n_keep++;
     }
     g.wait_for_all();
-    g_nontrivial = n_rej > 0 && (n_pull > 0 || n_keep > 0 || m.kind == "lim" || m.kind == "bc" || m.kind == "fn" || m.kind == "as" || m.kind == "ow" || m.kind == "wo");
+    g_nontrivial = n_rej > 0 && (n_pull > 0 || n_keep > 0 || n_resv > 0 || m.kind == "lim" || m.kind == "bc" || m.kind == "fn" || m.kind == "as" || m.kind == "ow" || m.kind == "wo");
     return true;
 }
 
@@ -192,7 +214,7 @@ static std::string gen_case() {
         else if (c < 16) o = "U" + std::to_string(pick(0, ns - 1));
         else if (c == 16) { if (kind == "lim") { int d = pick(-3, 4); if (d <= 0) d -= 1; if (d > 3) d = 1; o = "D" + std::to_string(d); } else if (kind == "ow" || kind == "wo") o = "C"; else o = "G"; }
         else if (c == 17) o = (kind == "lim") ? "D" + std::to_string(pick(1, 3)) : (kind == "fn" || kind == "as") ? "R" : "G";
-        else if (c == 18) o = "E" + std::to_string(pick(0, ns - 1));
+        else if (c == 18) { bool bufk = kind == "q" || kind == "pq" || kind == "seq"; int w = pick(0, 5); o = (bufk && w < 4) ? (w < 2 ? "V" : w == 2 ? "L" : "M") : "E" + std::to_string(pick(0, ns - 1)); }
         else o = (kind == "ow" || kind == "wo") ? "C" : "P" + std::to_string(pick(0, 15));
         ops += (i ? "," : "") + o;
     }
